@@ -139,6 +139,7 @@ func (e *twEngine) wRunTx(tx *twTx, dry bool) twTxRes {
 	} else {
 		cctx = cctx.WithGasMeter(storetypes.NewInfiniteGasMeter())
 	}
+	byDone := map[uint64]bool{} // pools changed by a message that completed
 	for i, m := range tx.msgs {
 		err := e.wDeliver(cctx, m, &res.outOfGas)
 		res.gasAfter = append(res.gasAfter, cctx.GasMeter().GasConsumed())
@@ -148,6 +149,14 @@ func (e *twEngine) wRunTx(tx *twTx, dry bool) twTxRes {
 		if err != nil {
 			res.failedAt, res.err = i, err.Error()
 			break
+		}
+		// (a message that fails may have written part of its pool update to the branch before the
+		// failing step, and its listener never runs; only completed messages owe an announcement)
+		octx := cctx.WithGasMeter(storetypes.NewInfiniteGasMeter())
+		for _, p := range tx.pools {
+			if !byDone[p.id] && e.wSig(octx, p) != before[p.id] {
+				byDone[p.id] = true
+			}
 		}
 	}
 	rctx := cctx.WithGasMeter(storetypes.NewInfiniteGasMeter())
@@ -173,7 +182,7 @@ func (e *twEngine) wRunTx(tx *twTx, dry bool) twTxRes {
 		what += ":dry-run"
 	}
 	for _, p := range res.touched {
-		if !inBranch[p.id] && !res.outOfGas {
+		if !inBranch[p.id] && !res.outOfGas && byDone[p.id] {
 			// (out of gas may strike between the pool's state change and the listener)
 			o.Fail("track:price-moving-message-not-announced-inside-tx:"+outcome+w.txClass(p.id), fmt.Sprintf("pool %d %s block %s/%d tx %s (%d messages, failed at %d: %s) pool sequence in block %q announced in branch %v",
 				p.id, p.kind, nsOf(t), hgt, what, len(tx.msgs), res.failedAt, res.err, w.seq[p.id], k.VerifGetChangedPools(rctx)))
